@@ -1,103 +1,1427 @@
+// Correspondence harness for property C13 (intention precedence, matching, decisions).
+//
+// Every case is one history of writes against a real state.Store:
+//   - legacy representation: Store.LegacyIntentionSet on the "connect-intentions" table;
+//   - config-entry representation: whole service-intentions entries through
+//     Normalize / Validate / Store.EnsureConfigEntry (what ConfigEntry.Apply does), or one source at a
+//     time through Store.IntentionMutation(IntentionOpUpsert) (what Intention.Apply does).
+// After the writes it records Store.Intentions, Store.IntentionMatch / IntentionMatchOne by source and by
+// destination for every query entry, and Store.IntentionDecision along both routes the servers use
+// (match by source + decide on destination = Intention.Check; match by destination + decide on source =
+// agent authorize / topology) for every (peer, source, destination).
+//
+// Cases come in groups: the same set of writes in every order (or up to six orders), so that the
+// model-independent oracle can compare the observations across orders.  The oracle also checks, on the
+// implementation's answers only: lists strictly sorted by (precedence desc, tie-break), match lists equal to
+// the brute-force "pattern covers the name" subset of Store.Intentions, every decision equal to the action
+// of the unique most specific covering intention (destination specificity first), both routes equal.
+//
+// The first output line tabulates the structs-level functions exhaustively on finite universes
+// (UpdatePrecedence, computeIntentionPrecedence via Normalize, IntentionPrecedenceSorter.Less,
+// connect.IntentionMatch); the check proves the model's functions equal to these tables by vm_compute.
 package main
 
 import (
+	"bufio"
+	"encoding/json"
+	"flag"
 	"fmt"
+	"math/rand"
+	"os"
+	"sort"
+	"strings"
+	"sync"
 
+	"github.com/hashicorp/consul/agent/connect"
 	"github.com/hashicorp/consul/agent/consul/state"
 	"github.com/hashicorp/consul/agent/structs"
 )
 
-func dump(tag string, ixns structs.Intentions) {
-	fmt.Printf("%s:", tag)
-	for _, i := range ixns {
-		fmt.Printf(" [%s|%s/%s/%s -> %s/%s/%s act=%q perms=%d prec=%d id=%s]", i.SourcePeer, i.SourcePartition, i.SourceNS, i.SourceName, i.DestinationPartition, i.DestinationNS, i.DestinationName, i.Action, len(i.Permissions), i.Precedence, i.ID)
+// ------------------------------------------------------------------ data
+
+type Ixn struct {
+	ID    string `json:"id"`
+	Peer  string `json:"peer"`
+	SNS   string `json:"sns"`
+	SName string `json:"sname"`
+	DNS   string `json:"dns"`
+	DName string `json:"dname"`
+	Act   string `json:"act"`
+	NPerm int    `json:"nperm"`
+	Prec  int    `json:"prec"`
+}
+
+type Src struct {
+	Peer  string `json:"peer"`
+	Name  string `json:"name"`
+	Act   string `json:"act"`
+	NPerm int    `json:"nperm"`
+}
+
+type Op struct {
+	Kind string `json:"kind"` // lset | entry | upsert
+	Ixn  *Ixn   `json:"ixn,omitempty"`
+	Name string `json:"name,omitempty"` // entry name / upsert destination
+	Srcs []Src  `json:"srcs,omitempty"` // entry: all sources; upsert: exactly one
+}
+
+type Case struct {
+	ID      int         `json:"id"`
+	Group   int         `json:"group"`
+	GKind   string      `json:"gkind"`
+	Mode    string      `json:"mode"` // legacy | upsert | entry | mixed
+	Commute bool        `json:"commute"`
+	WF      bool        `json:"wf"` // all stored intentions well-formed and accepted (oracle applies in full)
+	Legacy  bool        `json:"legacy"`
+	Ops     []Op        `json:"ops"`
+	Qs      [][2]string `json:"qs"`
+	Peers   []string    `json:"peers"`
+	Dflt    bool        `json:"dflt"`
+	APerm   bool        `json:"aperm"`
+
+	WRes []int   `json:"wres"`
+	WMsg []string `json:"wmsg,omitempty"`
+	All  []Ixn   `json:"all"`
+	MSrc [][]int `json:"msrc"`
+	MDst [][]int `json:"mdst"`
+	R1   []int   `json:"r1"`
+	R2   []int   `json:"r2"`
+
+	Oracle string `json:"oracle"` // "" or the kinds of the direct-oracle failures, comma separated
+	Fails  []Fail `json:"fails,omitempty"`
+	ToCoq  bool   `json:"to_coq"`
+
+	// not serialised: full lists for the cross-order comparison
+	msrcFull, mdstFull [][]Ixn
+	r1all, r2all       [4][]int
+}
+
+type Fail struct {
+	Kind   string                 `json:"kind"`
+	Detail string                 `json:"detail"`
+	Sig    map[string]interface{} `json:"sig"`
+	Shrunk *Replay                `json:"shrunk,omitempty"`
+}
+
+type Replay struct {
+	Legacy bool        `json:"legacy"`
+	Ops    []Op        `json:"ops"`
+	Ops2   []Op        `json:"ops2,omitempty"` // second history for cross-order failures
+	Qs     [][2]string `json:"qs"`
+	Peers  []string    `json:"peers"`
+	Dflt   bool        `json:"dflt"`
+	APerm  bool        `json:"aperm"`
+	Reason string      `json:"reason,omitempty"`
+}
+
+// ------------------------------------------------------------------ running the implementation
+
+func mkPerms(n int) []*structs.IntentionPermission {
+	var out []*structs.IntentionPermission
+	for k := 0; k < n; k++ {
+		out = append(out, &structs.IntentionPermission{
+			Action: structs.IntentionActionAllow,
+			HTTP:   &structs.IntentionHTTPPermission{PathExact: fmt.Sprintf("/p%d", k)},
+		})
 	}
-	fmt.Println()
+	return out
+}
+
+func errCode(err error) int {
+	if err == nil {
+		return 0
+	}
+	s := err.Error()
+	switch {
+	case strings.Contains(s, "Missing Intention ID"):
+		return 100
+	case strings.Contains(s, "duplicate intention found"):
+		return 101
+	case s == "Name is required":
+		return 1
+	case strings.HasPrefix(s, "Name: wildcard character"):
+		return 2
+	case strings.Contains(s, "At least one source is required"):
+		return 3
+	case strings.HasPrefix(s, "Sources[") && strings.HasSuffix(s, "].Name is required"):
+		return 4
+	case strings.HasPrefix(s, "Sources[") && strings.Contains(s, "].Name: wildcard character"):
+		return 5
+	case strings.HasPrefix(s, "Sources[") && strings.Contains(s, "Peer: cannot use wildcard"):
+		return 6
+	case strings.Contains(s, "Action must be set to 'allow' or 'deny'"):
+		return 7
+	case strings.Contains(s, "Action must be omitted if Permissions are specified"):
+		return 8
+	case strings.Contains(s, "Permissions cannot be specified on intentions with wildcarded destinations"):
+		return 9
+	case strings.Contains(s, "more than once"):
+		return 10
+	}
+	return 900
+}
+
+func project(i *structs.Intention) (Ixn, string) {
+	bad := ""
+	if i.SourcePartition != "" || i.DestinationPartition != "" || i.SourceSamenessGroup != "" {
+		bad = fmt.Sprintf("unexpected tenancy fields %q %q %q", i.SourcePartition, i.DestinationPartition, i.SourceSamenessGroup)
+	}
+	return Ixn{ID: i.ID, Peer: i.SourcePeer, SNS: i.SourceNS, SName: i.SourceName, DNS: i.DestinationNS,
+		DName: i.DestinationName, Act: string(i.Action), NPerm: len(i.Permissions), Prec: i.Precedence}, bad
+}
+
+func projectAll(l structs.Intentions) ([]Ixn, string) {
+	out := make([]Ixn, 0, len(l))
+	bad := ""
+	for _, i := range l {
+		p, b := project(i)
+		if b != "" {
+			bad = b
+		}
+		out = append(out, p)
+	}
+	return out, bad
+}
+
+func sumCode(d structs.IntentionDecisionSummary) int {
+	c := 0
+	if d.Allowed {
+		c |= 1
+	}
+	if d.HasPermissions {
+		c |= 2
+	}
+	if d.HasExact {
+		c |= 4
+	}
+	return c
+}
+
+func toIntention(x *Ixn) *structs.Intention {
+	return &structs.Intention{ID: x.ID, SourcePeer: x.Peer, SourceNS: x.SNS, SourceName: x.SName,
+		DestinationNS: x.DNS, DestinationName: x.DName, Action: structs.IntentionAction(x.Act),
+		Permissions: mkPerms(x.NPerm), SourceType: structs.IntentionSourceConsul}
+}
+
+func toSource(s Src) *structs.SourceIntention {
+	return &structs.SourceIntention{Name: s.Name, Peer: s.Peer, Action: structs.IntentionAction(s.Act),
+		Permissions: mkPerms(s.NPerm)}
+}
+
+func newStore(legacy bool) (*state.Store, error) {
+	s := state.NewStateStore(nil)
+	if legacy {
+		return s, nil
+	}
+	if err := s.SystemMetadataSet(1, &structs.SystemMetadataEntry{
+		Key: structs.SystemMetadataIntentionFormatKey, Value: structs.SystemMetadataIntentionFormatConfigValue}); err != nil {
+		return nil, err
+	}
+	// L7 intentions need an L7 protocol on the destination (validateProposedConfigEntryInGraph)
+	pd := &structs.ProxyConfigEntry{Kind: structs.ProxyDefaults, Name: structs.ProxyConfigGlobal,
+		Config: map[string]interface{}{"protocol": "http"}}
+	if err := pd.Normalize(); err != nil {
+		return nil, err
+	}
+	if err := pd.Validate(); err != nil {
+		return nil, err
+	}
+	if err := s.EnsureConfigEntry(2, pd); err != nil {
+		return nil, err
+	}
+	return s, nil
+}
+
+func applyOp(s *state.Store, idx uint64, o *Op) error {
+	switch o.Kind {
+	case "lset":
+		return s.LegacyIntentionSet(idx, toIntention(o.Ixn))
+	case "entry":
+		e := &structs.ServiceIntentionsConfigEntry{Kind: structs.ServiceIntentions, Name: o.Name}
+		for _, x := range o.Srcs {
+			e.Sources = append(e.Sources, toSource(x))
+		}
+		if err := e.Normalize(); err != nil {
+			return err
+		}
+		if err := e.Validate(); err != nil {
+			return err
+		}
+		return s.EnsureConfigEntry(idx, e)
+	case "upsert":
+		x := o.Srcs[0]
+		return s.IntentionMutation(idx, structs.IntentionOpUpsert, &structs.IntentionMutation{
+			Destination: structs.NewServiceName(o.Name, nil),
+			Source:      structs.NewServiceName(x.Name, nil),
+			Value:       toSource(x),
+		})
+	}
+	return fmt.Errorf("unknown op %q", o.Kind)
+}
+
+func ikey(x Ixn) string {
+	return strings.Join([]string{x.ID, x.Peer, x.SNS, x.SName, x.DNS, x.DName}, "\x00")
+}
+
+var combos = [4][2]bool{{false, false}, {false, true}, {true, false}, {true, true}}
+
+func comboIndex(d, a bool) int {
+	k := 0
+	if d {
+		k |= 2
+	}
+	if a {
+		k |= 1
+	}
+	return k
+}
+
+// execute runs the writes and all queries of c on a fresh store and fills the observation fields.
+// Returns a non-empty string when something outside the modelled behaviour happened.
+func execute(c *Case) string {
+	problem := ""
+	s, err := newStore(c.Legacy)
+	if err != nil {
+		return "store setup: " + err.Error()
+	}
+	c.WRes, c.WMsg = nil, nil
+	idx := uint64(10)
+	for k := range c.Ops {
+		idx++
+		err := applyOp(s, idx, &c.Ops[k])
+		code := errCode(err)
+		c.WRes = append(c.WRes, code)
+		if err != nil {
+			c.WMsg = append(c.WMsg, err.Error())
+			if code == 900 {
+				problem = "unclassified write error: " + err.Error()
+			}
+		} else {
+			c.WMsg = append(c.WMsg, "")
+		}
+	}
+	_, all, _, err := s.Intentions(nil, nil)
+	if err != nil {
+		return "Intentions: " + err.Error()
+	}
+	var bad string
+	c.All, bad = projectAll(all)
+	if bad != "" {
+		problem = bad
+	}
+	pos := map[string]int{}
+	for k, x := range c.All {
+		pos[ikey(x)] = k
+	}
+	index := func(l []Ixn) []int {
+		out := make([]int, 0, len(l))
+		for _, x := range l {
+			if p, ok := pos[ikey(x)]; ok && c.All[p] == x {
+				out = append(out, p)
+			} else {
+				out = append(out, 9999)
+				problem = "match result not in Store.Intentions: " + fmt.Sprint(x)
+			}
+		}
+		return out
+	}
+	nq := len(c.Qs)
+	srcLists := make([]structs.SimplifiedIntentions, nq)
+	dstLists := make([]structs.SimplifiedIntentions, nq)
+	c.MSrc, c.MDst = make([][]int, nq), make([][]int, nq)
+	c.msrcFull, c.mdstFull = make([][]Ixn, nq), make([][]Ixn, nq)
+	for k, q := range c.Qs {
+		entry := structs.IntentionMatchEntry{Namespace: q[0], Name: q[1]}
+		for _, mt := range []structs.IntentionMatchType{structs.IntentionMatchSource, structs.IntentionMatchDestination} {
+			_, ls, err := s.IntentionMatch(nil, &structs.IntentionQueryMatch{Type: mt, Entries: []structs.IntentionMatchEntry{entry}})
+			if err != nil || len(ls) != 1 {
+				return fmt.Sprintf("IntentionMatch: %v", err)
+			}
+			_, one, err := s.IntentionMatchOne(nil, entry, mt, structs.IntentionTargetService)
+			if err != nil {
+				return "IntentionMatchOne: " + err.Error()
+			}
+			pl, b1 := projectAll(ls[0])
+			po, b2 := projectAll(structs.Intentions(one))
+			if b1 != "" || b2 != "" {
+				problem = b1 + b2
+			}
+			if fmt.Sprint(pl) != fmt.Sprint(po) {
+				problem = fmt.Sprintf("IntentionMatch and IntentionMatchOne differ for %v/%s", q, mt)
+			}
+			if mt == structs.IntentionMatchSource {
+				srcLists[k], c.MSrc[k], c.msrcFull[k] = one, index(pl), pl
+			} else {
+				dstLists[k], c.MDst[k], c.mdstFull[k] = one, index(pl), pl
+			}
+		}
+	}
+	for ci, cb := range combos {
+		var r1, r2 []int
+		for ks := range c.Qs {
+			for _, qd := range c.Qs {
+				d, err := s.IntentionDecision(state.IntentionDecisionOpts{Target: qd[1], Namespace: qd[0],
+					Intentions: srcLists[ks], MatchType: structs.IntentionMatchDestination,
+					DefaultAllow: cb[0], AllowPermissions: cb[1]})
+				if err != nil {
+					return "IntentionDecision: " + err.Error()
+				}
+				if d.ExternalSource != "" || d.DefaultAllow != cb[0] {
+					problem = "unexpected summary fields"
+				}
+				r1 = append(r1, sumCode(d))
+			}
+		}
+		for _, peer := range c.Peers {
+			for _, qs := range c.Qs {
+				for kd := range c.Qs {
+					d, err := s.IntentionDecision(state.IntentionDecisionOpts{Target: qs[1], Namespace: qs[0], Peer: peer,
+						Intentions: dstLists[kd], MatchType: structs.IntentionMatchSource,
+						DefaultAllow: cb[0], AllowPermissions: cb[1]})
+					if err != nil {
+						return "IntentionDecision: " + err.Error()
+					}
+					r2 = append(r2, sumCode(d))
+				}
+			}
+		}
+		c.r1all[ci], c.r2all[ci] = r1, r2
+	}
+	k := comboIndex(c.Dflt, c.APerm)
+	c.R1, c.R2 = c.r1all[k], c.r2all[k]
+	return problem
+}
+
+// ------------------------------------------------------------------ the direct oracle (model independent)
+
+func lessSpec(a, b Ixn) bool { // the order the property demands of every returned list
+	if a.Prec != b.Prec {
+		return a.Prec > b.Prec
+	}
+	ka := []string{a.Peer, a.SNS, a.SName, a.DNS, a.DName}
+	kb := []string{b.Peer, b.SNS, b.SName, b.DNS, b.DName}
+	for i := range ka {
+		if ka[i] != kb[i] {
+			return ka[i] < kb[i]
+		}
+	}
+	return false
+}
+
+func patCovers(pns, pname, ns, name string) bool {
+	return (pns == "*" || pns == ns) && (pname == "*" || pname == name)
+}
+
+func spec(ns, name string) int {
+	n := 0
+	if ns != "*" {
+		n++
+	}
+	if name != "*" {
+		n++
+	}
+	return n
+}
+
+type fail struct{ kind, detail string }
+
+// oracleCase returns the first failure of every kind.
+func oracleCase(c *Case) []*fail {
+	var out []*fail
+	seen := map[string]bool{}
+	for _, f := range oracleAll(c) {
+		if !seen[f.kind] {
+			seen[f.kind] = true
+			out = append(out, f)
+		}
+	}
+	return out
+}
+
+func hasKind(fs []*fail, kind string) *fail {
+	for _, f := range fs {
+		if f.kind == kind {
+			return f
+		}
+	}
+	return nil
+}
+
+func oracleAll(c *Case) (out []*fail) {
+	// O-sorted: every list strictly sorted
+	chk := func(what string, l []Ixn) *fail {
+		for k := 0; k+1 < len(l); k++ {
+			if !lessSpec(l[k], l[k+1]) {
+				return &fail{"not-sorted", fmt.Sprintf("%s: %v before %v", what, l[k], l[k+1])}
+			}
+		}
+		return nil
+	}
+	if f := chk("Store.Intentions", c.All); f != nil {
+		out = append(out, f)
+	}
+	for k := range c.Qs {
+		if f := chk(fmt.Sprintf("match source %v", c.Qs[k]), c.msrcFull[k]); f != nil {
+			out = append(out, f)
+		}
+		if f := chk(fmt.Sprintf("match destination %v", c.Qs[k]), c.mdstFull[k]); f != nil {
+			out = append(out, f)
+		}
+	}
+	if !c.WF {
+		return out
+	}
+	// O-prec: precedence numbers order exactly like (destination specificity, source specificity)
+	for _, a := range c.All {
+		for _, b := range c.All {
+			sa := [2]int{spec(a.DNS, a.DName), spec(a.SNS, a.SName)}
+			sb := [2]int{spec(b.DNS, b.DName), spec(b.SNS, b.SName)}
+			more := sa[0] > sb[0] || (sa[0] == sb[0] && sa[1] > sb[1])
+			if more != (a.Prec > b.Prec) {
+				out = append(out, &fail{"precedence-not-specificity", fmt.Sprintf("%v vs %v", a, b)})
+			}
+		}
+	}
+	// O-match: match lists are exactly the covering subsets of Store.Intentions
+	for k, q := range c.Qs {
+		wantS, wantD := map[string]bool{}, map[string]bool{}
+		for _, x := range c.All {
+			if x.Peer == "" && patCovers(x.SNS, x.SName, q[0], q[1]) {
+				wantS[ikey(x)] = true
+			}
+			if patCovers(x.DNS, x.DName, q[0], q[1]) {
+				wantD[ikey(x)] = true
+			}
+		}
+		cmp := func(side string, want map[string]bool, got []Ixn) *fail {
+			seen := map[string]bool{}
+			for _, x := range got {
+				seen[ikey(x)] = true
+				if !want[ikey(x)] {
+					return &fail{side + "-match-extra", fmt.Sprintf("query %v: %v does not cover it", q, x)}
+				}
+			}
+			for _, x := range c.All {
+				if want[ikey(x)] && !seen[ikey(x)] {
+					return &fail{side + "-match-missing", fmt.Sprintf("query %v: %v covers it but is not returned", q, x)}
+				}
+			}
+			return nil
+		}
+		if f := cmp("src", wantS, c.msrcFull[k]); f != nil {
+			out = append(out, f)
+		}
+		if f := cmp("dst", wantD, c.mdstFull[k]); f != nil {
+			out = append(out, f)
+		}
+	}
+	// O-decide: the unique most specific covering intention decides, else the default; both routes agree
+	nq := len(c.Qs)
+	for ci, cb := range combos {
+		for pi, peer := range c.Peers {
+			for ks, qs := range c.Qs {
+				for kd, qd := range c.Qs {
+					var best *Ixn
+					tie := false
+					for k := range c.All {
+						x := &c.All[k]
+						if x.Peer != peer || !patCovers(x.SNS, x.SName, qs[0], qs[1]) || !patCovers(x.DNS, x.DName, qd[0], qd[1]) {
+							continue
+						}
+						if best == nil {
+							best = x
+							continue
+						}
+						sx := [2]int{spec(x.DNS, x.DName), spec(x.SNS, x.SName)}
+						sb := [2]int{spec(best.DNS, best.DName), spec(best.SNS, best.SName)}
+						if sx == sb {
+							tie = true
+						} else if sx[0] > sb[0] || (sx[0] == sb[0] && sx[1] > sb[1]) {
+							best, tie = x, false
+						}
+					}
+					if tie {
+						out = append(out, &fail{"ambiguous-most-specific", fmt.Sprintf("%q %v -> %v", peer, qs, qd)})
+						continue
+					}
+					want := 0
+					if best == nil {
+						if cb[0] {
+							want = 1
+						}
+					} else {
+						if best.NPerm > 0 {
+							want |= 2
+							if cb[1] {
+								want |= 1
+							}
+						} else if best.Act == "allow" {
+							want |= 1
+						}
+						if best.SName != "*" && best.DName != "*" {
+							want |= 4
+						}
+					}
+					got2 := c.r2all[ci][(pi*nq+ks)*nq+kd]
+					if got2 != want {
+						out = append(out, &fail{"decision-not-most-specific", fmt.Sprintf("route match-by-destination: peer %q %v -> %v default_allow=%v allow_perms=%v: got %d want %d (deciding intention %v)", peer, qs, qd, cb[0], cb[1], got2, want, best)})
+					}
+					if peer == "" {
+						got1 := c.r1all[ci][ks*nq+kd]
+						if got1 != got2 {
+							out = append(out, &fail{"routes-disagree", fmt.Sprintf("%v -> %v default_allow=%v allow_perms=%v: match-by-source gives %d, match-by-destination gives %d", qs, qd, cb[0], cb[1], got1, got2)})
+						}
+					}
+				}
+			}
+		}
+	}
+	return out
+}
+
+func sameObs(a, b *Case) string {
+	if fmt.Sprint(a.All) != fmt.Sprint(b.All) {
+		return "Store.Intentions differs"
+	}
+	for k := range a.Qs {
+		if fmt.Sprint(a.msrcFull[k]) != fmt.Sprint(b.msrcFull[k]) {
+			return fmt.Sprintf("match by source %v differs", a.Qs[k])
+		}
+		if fmt.Sprint(a.mdstFull[k]) != fmt.Sprint(b.mdstFull[k]) {
+			return fmt.Sprintf("match by destination %v differs", a.Qs[k])
+		}
+	}
+	if fmt.Sprint(a.r1all) != fmt.Sprint(b.r1all) || fmt.Sprint(a.r2all) != fmt.Sprint(b.r2all) {
+		return "decisions differ"
+	}
+	return ""
+}
+
+func lowerASCII(s string) string { return strings.ToLower(s) }
+
+// structured signature of an oracle failure, from the case's own data
+func signature(c *Case, kind string) map[string]interface{} {
+	names := map[string]bool{}
+	add := func(n string) {
+		if n != "" {
+			names[n] = true
+		}
+	}
+	shadow := false
+	for _, x := range c.All {
+		add(x.SName)
+		add(x.DName)
+		for _, y := range c.All {
+			if x.SName == y.SName && x.DName == y.DName && x.Peer != y.Peer {
+				shadow = true
+			}
+		}
+	}
+	for _, q := range c.Qs {
+		add(q[1])
+	}
+	for _, o := range c.Ops {
+		add(o.Name)
+		for _, s := range o.Srcs {
+			add(s.Name)
+		}
+	}
+	mixed := false
+	low := map[string]string{}
+	for n := range names {
+		if o, ok := low[lowerASCII(n)]; ok && o != n {
+			mixed = true
+		}
+		low[lowerASCII(n)] = n
+	}
+	return map[string]interface{}{"kind": kind, "mixed_case": mixed, "peer_shadow": shadow, "legacy": c.Legacy}
+}
+
+// ------------------------------------------------------------------ shrinking
+
+func cloneOps(ops []Op) []Op {
+	b, _ := json.Marshal(ops)
+	var out []Op
+	_ = json.Unmarshal(b, &out)
+	return out
+}
+
+func shrinkSingle(c *Case, kind string) *Replay {
+	cur := &Case{Legacy: c.Legacy, WF: c.WF, Ops: cloneOps(c.Ops), Qs: c.Qs, Peers: c.Peers, Dflt: c.Dflt, APerm: c.APerm}
+	changed := true
+	for changed {
+		changed = false
+		for k := range cur.Ops {
+			t := &Case{Legacy: cur.Legacy, WF: cur.WF, Qs: cur.Qs, Peers: cur.Peers, Dflt: cur.Dflt, APerm: cur.APerm}
+			t.Ops = append(cloneOps(cur.Ops[:k]), cloneOps(cur.Ops[k+1:])...)
+			if execute(t) != "" {
+				continue
+			}
+			if hasKind(oracleCase(t), kind) != nil {
+				cur, changed = t, true
+				break
+			}
+		}
+	}
+	_ = execute(cur)
+	f := hasKind(oracleCase(cur), kind)
+	r := &Replay{Legacy: cur.Legacy, Ops: cur.Ops, Qs: cur.Qs, Peers: cur.Peers, Dflt: cur.Dflt, APerm: cur.APerm}
+	if f != nil {
+		r.Reason = f.kind + ": " + f.detail
+	}
+	return r
+}
+
+func opKey(o Op) string { b, _ := json.Marshal(o); return string(b) }
+
+func shrinkPair(a, b *Case) *Replay {
+	mk := func(c *Case, ops []Op) *Case {
+		return &Case{Legacy: c.Legacy, WF: c.WF, Ops: cloneOps(ops), Qs: c.Qs, Peers: c.Peers, Dflt: c.Dflt, APerm: c.APerm}
+	}
+	ca, cb := mk(a, a.Ops), mk(b, b.Ops)
+	changed := true
+	for changed {
+		changed = false
+		for k := range ca.Ops {
+			key := opKey(ca.Ops[k])
+			na := append(cloneOps(ca.Ops[:k]), cloneOps(ca.Ops[k+1:])...)
+			var nb []Op
+			removed := false
+			for _, o := range cb.Ops {
+				if !removed && opKey(o) == key {
+					removed = true
+					continue
+				}
+				nb = append(nb, o)
+			}
+			if !removed {
+				continue
+			}
+			ta, tb := mk(a, na), mk(b, nb)
+			if execute(ta) != "" || execute(tb) != "" {
+				continue
+			}
+			if sameObs(ta, tb) != "" {
+				ca, cb, changed = ta, tb, true
+				break
+			}
+		}
+	}
+	_ = execute(ca)
+	_ = execute(cb)
+	return &Replay{Legacy: a.Legacy, Ops: ca.Ops, Ops2: cb.Ops, Qs: a.Qs, Peers: a.Peers, Dflt: a.Dflt, APerm: a.APerm,
+		Reason: "the two histories end with the same writes applied but: " + sameObs(ca, cb)}
+}
+
+// ------------------------------------------------------------------ generators
+
+type write struct { // one logical intention write
+	Peer, SNS, SName, DNS, DName, Act string
+	NPerm                           int
+}
+
+type group struct {
+	kind    string
+	mode    string
+	writes  []write
+	orders  [][]int
+	commute bool
+	wf      bool
+	prefix  [][]Op // optional per-order prefix histories (stored-order groups)
+	extraQ  []string
+}
+
+func permutations(n int) [][]int {
+	var out [][]int
+	var rec func(cur []int, used []bool)
+	rec = func(cur []int, used []bool) {
+		if len(cur) == n {
+			out = append(out, append([]int(nil), cur...))
+			return
+		}
+		for i := 0; i < n; i++ {
+			if !used[i] {
+				used[i] = true
+				rec(append(cur, i), used)
+				used[i] = false
+			}
+		}
+	}
+	rec(nil, make([]bool, n))
+	return out
+}
+
+func somePerms(rng *rand.Rand, n, max int) [][]int {
+	if n <= 3 {
+		return permutations(n)
+	}
+	id := make([]int, n)
+	rev := make([]int, n)
+	for i := range id {
+		id[i], rev[i] = i, n-1-i
+	}
+	out := [][]int{id, rev}
+	seen := map[string]bool{fmt.Sprint(id): true, fmt.Sprint(rev): true}
+	for len(out) < max {
+		p := rng.Perm(n)
+		if !seen[fmt.Sprint(p)] {
+			seen[fmt.Sprint(p)] = true
+			out = append(out, p)
+		}
+	}
+	return out
+}
+
+func actOf(a string) (string, int) {
+	if a == "l7" {
+		return "", 1
+	}
+	return a, 0
+}
+
+// buildOps turns logical writes, in the given order, into store operations for the mode.
+func buildOps(g *group, gid int, order []int) []Op {
+	var ops []Op
+	type ent struct {
+		name string
+		srcs []Src
+	}
+	var client []*ent // what a config-entry client would hold, per destination name
+	for pos, wi := range order {
+		w := g.writes[wi]
+		mode := g.mode
+		if mode == "mixed" {
+			if (wi+gid)%2 == 0 && w.Peer == "" {
+				mode = "upsert"
+			} else {
+				mode = "entry"
+			}
+		}
+		switch mode {
+		case "legacy":
+			id := fmt.Sprintf("%08x-0000-4000-8000-%012x", gid, wi+1)
+			if w.SNS == "!noid" {
+				id = ""
+			}
+			_ = pos
+			sns := w.SNS
+			if sns == "!noid" {
+				sns = "default"
+			}
+			ops = append(ops, Op{Kind: "lset", Ixn: &Ixn{ID: id, Peer: w.Peer, SNS: sns, SName: w.SName, DNS: w.DNS, DName: w.DName, Act: w.Act, NPerm: w.NPerm}})
+		case "upsert":
+			ops = append(ops, Op{Kind: "upsert", Name: w.DName, Srcs: []Src{{Peer: w.Peer, Name: w.SName, Act: w.Act, NPerm: w.NPerm}}})
+			// keep the client view in step (used by later whole-entry writes in mixed mode)
+			var e *ent
+			for _, x := range client {
+				if x.name == w.DName {
+					e = x
+				}
+			}
+			if e == nil {
+				e = &ent{name: w.DName}
+				client = append(client, e)
+			}
+			done := false
+			for k := range e.srcs {
+				if e.srcs[k].Name == w.SName && e.srcs[k].Peer == w.Peer {
+					e.srcs[k] = Src{Peer: w.Peer, Name: w.SName, Act: w.Act, NPerm: w.NPerm}
+					done = true
+				}
+			}
+			if !done {
+				e.srcs = append(e.srcs, Src{Peer: w.Peer, Name: w.SName, Act: w.Act, NPerm: w.NPerm})
+			}
+		case "entry":
+			var e *ent
+			for _, x := range client {
+				if x.name == w.DName {
+					e = x
+				}
+			}
+			if e == nil {
+				e = &ent{name: w.DName}
+				client = append(client, e)
+			}
+			done := false
+			for k := range e.srcs {
+				if e.srcs[k].Name == w.SName && e.srcs[k].Peer == w.Peer {
+					e.srcs[k] = Src{Peer: w.Peer, Name: w.SName, Act: w.Act, NPerm: w.NPerm}
+					done = true
+				}
+			}
+			if !done {
+				e.srcs = append(e.srcs, Src{Peer: w.Peer, Name: w.SName, Act: w.Act, NPerm: w.NPerm})
+			}
+			ops = append(ops, Op{Kind: "entry", Name: e.name, Srcs: append([]Src(nil), e.srcs...)})
+		}
+	}
+	return ops
+}
+
+func queriesFor(g *group, ops []Op) ([][2]string, []string) {
+	names := map[string]bool{"*": true, "zz": true}
+	nss := map[string]bool{"default": true}
+	peers := map[string]bool{"": true}
+	for _, w := range g.writes {
+		if w.SName != "" {
+			names[w.SName] = true
+		}
+		if w.DName != "" {
+			names[w.DName] = true
+		}
+		if w.Peer != "" && !strings.Contains(w.Peer, "*") {
+			peers[w.Peer] = true
+		}
+		if g.mode == "legacy" {
+			if w.SNS != "" && !strings.HasPrefix(w.SNS, "!") {
+				nss[w.SNS] = true
+			}
+			if w.DNS != "" {
+				nss[w.DNS] = true
+			}
+		}
+	}
+	for _, pre := range g.prefix {
+		for _, o := range pre {
+			names[o.Name] = true
+			for _, s := range o.Srcs {
+				names[s.Name] = true
+				if s.Peer != "" {
+					peers[s.Peer] = true
+				}
+			}
+		}
+	}
+	for _, n := range g.extraQ {
+		names[n] = true
+	}
+	var ns, nn, pp []string
+	for n := range names {
+		if !strings.Contains(n, "*") || n == "*" {
+			nn = append(nn, n)
+		}
+	}
+	for n := range nss {
+		ns = append(ns, n)
+	}
+	for p := range peers {
+		pp = append(pp, p)
+	}
+	sort.Strings(nn)
+	sort.Strings(ns)
+	sort.Strings(pp)
+	var qs [][2]string
+	for _, a := range ns {
+		for _, b := range nn {
+			if a == "*" && b != "*" {
+				continue // not a valid query entry
+			}
+			qs = append(qs, [2]string{a, b})
+		}
+	}
+	if len(qs) > 7 {
+		// keep the query set small: every name in "default", plus the other namespaces with "*" and the first name
+		var keep [][2]string
+		for _, q := range qs {
+			if q[0] == "default" || q[1] == "*" || q[1] == nn[len(nn)-1] {
+				keep = append(keep, q)
+			}
+		}
+		qs = keep
+	}
+	return qs, pp
+}
+
+func genGroups(rng *rand.Rand, tier string) []*group {
+	var gs []*group
+	// ---- 1. exhaustive small scope: sources/destinations over {a,b,*}, allow/deny/L7, sets of <= 3 distinct pairs
+	names := []string{"a", "b", "*"}
+	acts := []string{"allow", "deny", "l7"}
+	type pair struct{ s, d string }
+	var pairs []pair
+	for _, s := range names {
+		for _, d := range names {
+			pairs = append(pairs, pair{s, d})
+		}
+	}
+	var sets [][]write
+	var rec func(start int, cur []write)
+	rec = func(start int, cur []write) {
+		if len(cur) > 0 {
+			sets = append(sets, append([]write(nil), cur...))
+		}
+		if len(cur) == 3 {
+			return
+		}
+		for p := start; p < len(pairs); p++ {
+			for _, a := range acts {
+				act, np := actOf(a)
+				rec(p+1, append(cur, write{SNS: "default", SName: pairs[p].s, DNS: "default", DName: pairs[p].d, Act: act, NPerm: np}))
+			}
+		}
+	}
+	rec(0, nil)
+	keepEvery := 1
+	if tier != "thorough" {
+		keepEvery = 14
+	}
+	off := rng.Intn(keepEvery)
+	for k, set := range sets {
+		if (k+off)%keepEvery != 0 {
+			continue
+		}
+		for _, mode := range []string{"legacy", "upsert", "entry"} {
+			commute := true
+			for _, w := range set {
+				if mode == "entry" && w.NPerm > 0 && w.DName == "*" {
+					// a whole-entry client keeps resending the rejected source: later writes fail by its own doing
+					commute = false
+				}
+			}
+			gs = append(gs, &group{kind: "small-exhaustive", mode: mode, writes: set, orders: permutations(len(set)), commute: commute, wf: true})
+		}
+	}
+	// ---- 2. random larger sets with peer sources
+	nLarge := 60
+	if tier == "thorough" {
+		nLarge = 1500
+	}
+	big := []string{"web", "api", "db", "cache", "*"}
+	for k := 0; k < nLarge; k++ {
+		n := 4 + rng.Intn(4)
+		mode := []string{"legacy", "upsert", "entry", "mixed"}[rng.Intn(4)]
+		var ws []write
+		keys := map[string]bool{}
+		commute := true
+		for len(ws) < n {
+			w := write{SNS: "default", DNS: "default", SName: big[rng.Intn(len(big))], DName: big[rng.Intn(len(big))]}
+			switch rng.Intn(5) {
+			case 0, 1:
+				w.Act = "allow"
+			case 2, 3:
+				w.Act = "deny"
+			default:
+				if mode != "legacy" && w.DName != "*" {
+					w.NPerm = 1 + rng.Intn(2)
+				} else {
+					w.Act = "deny"
+				}
+			}
+			if (mode == "entry" || mode == "mixed") && rng.Intn(3) == 0 {
+				w.Peer = []string{"p", "q"}[rng.Intn(2)]
+			}
+			key := w.Peer + "|" + w.SName + "|" + w.DName
+			nameKey := w.SName + "|" + w.DName
+			if keys[key] {
+				if rng.Intn(4) != 0 {
+					continue
+				}
+				commute = false // the same intention written twice: the last write wins, order matters by design
+			}
+			if mode == "mixed" && keys["n:"+nameKey] && !keys[key] {
+				continue // keep local/peered twins out of the upsert path here (covered by the stored-order groups)
+			}
+			keys[key], keys["n:"+nameKey] = true, true
+			ws = append(ws, w)
+		}
+		gs = append(gs, &group{kind: "random-large", mode: mode, writes: ws, orders: somePerms(rng, n, 6), commute: commute, wf: true})
+	}
+	// ---- 3. legacy rows with namespaces (store level): wildcard namespaces, other namespaces
+	nNS := 40
+	if tier == "thorough" {
+		nNS = 600
+	}
+	for k := 0; k < nNS; k++ {
+		n := 2 + rng.Intn(4)
+		var ws []write
+		keys := map[string]bool{}
+		for len(ws) < n {
+			pick := func() (string, string) {
+				switch rng.Intn(6) {
+				case 0:
+					return "*", "*"
+				case 1:
+					return "default", "*"
+				case 2:
+					return "ns1", "*"
+				case 3:
+					return "ns1", []string{"web", "db"}[rng.Intn(2)]
+				default:
+					return "default", []string{"web", "db", "api"}[rng.Intn(3)]
+				}
+			}
+			sns, sn := pick()
+			dns, dn := pick()
+			key := sns + "/" + sn + ">" + dns + "/" + dn
+			if keys[key] {
+				continue
+			}
+			keys[key] = true
+			ws = append(ws, write{SNS: sns, SName: sn, DNS: dns, DName: dn, Act: []string{"allow", "deny"}[rng.Intn(2)]})
+		}
+		gs = append(gs, &group{kind: "legacy-namespaces", mode: "legacy", writes: ws, orders: somePerms(rng, n, 6), commute: true, wf: true})
+	}
+	// ---- 4. malformed stream (what a client can send; rejected writes must leave no trace)
+	bad := [][]write{
+		{{SNS: "default", SName: "a*", DNS: "default", DName: "b", Act: "allow"}, {SNS: "default", SName: "a", DNS: "default", DName: "b", Act: "deny"}},
+		{{SNS: "default", SName: "a", DNS: "default", DName: "b*", Act: "allow"}},
+		{{SNS: "default", SName: "", DNS: "default", DName: "b", Act: "allow"}, {SNS: "default", SName: "*", DNS: "default", DName: "b", Act: "deny"}},
+		{{SNS: "default", SName: "a", DNS: "default", DName: "b", Act: ""}},
+		{{SNS: "default", SName: "a", DNS: "default", DName: "b", Act: "ALLOW"}, {SNS: "default", SName: "a", DNS: "default", DName: "*", Act: "allow"}},
+		{{SNS: "default", SName: "a", DNS: "default", DName: "b", Act: "allow", NPerm: 1}},
+		{{SNS: "default", SName: "a", DNS: "default", DName: "*", NPerm: 1}, {SNS: "default", SName: "*", DNS: "default", DName: "*", Act: "deny"}},
+		{{SNS: "default", SName: "a", DNS: "default", DName: "b", Act: "allow", Peer: "p*"}},
+		{{SNS: "default", SName: "a", DNS: "default", DName: "b", NPerm: 2}, {SNS: "default", SName: "a", DNS: "default", DName: "b", Act: "deny"}},
+	}
+	for _, ws := range bad {
+		for _, mode := range []string{"upsert", "entry"} {
+			okMode := true
+			for _, w := range ws {
+				if w.Peer != "" && mode == "upsert" {
+					okMode = false
+				}
+			}
+			if okMode {
+				gs = append(gs, &group{kind: "malformed", mode: mode, writes: ws, orders: permutations(len(ws)), commute: false, wf: true})
+			}
+		}
+	}
+	// malformed legacy rows: missing ID, duplicate 4-tuple under another ID (also differing only in case),
+	// exact name after wildcard namespace, permissions / empty action on a legacy row
+	badLegacy := [][]write{
+		{{SNS: "!noid", SName: "a", DNS: "default", DName: "b", Act: "allow"}, {SNS: "default", SName: "a", DNS: "default", DName: "c", Act: "deny"}},
+		{{SNS: "default", SName: "a", DNS: "default", DName: "b", Act: "allow"}, {SNS: "default", SName: "a", DNS: "default", DName: "b", Act: "deny"}},
+		{{SNS: "*", SName: "a", DNS: "*", DName: "b", Act: "deny"}, {SNS: "*", SName: "*", DNS: "*", DName: "*", Act: "allow"}, {SNS: "default", SName: "a", DNS: "default", DName: "b", Act: "allow"}},
+		{{SNS: "default", SName: "a", DNS: "default", DName: "b", Act: "", NPerm: 1}, {SNS: "default", SName: "*", DNS: "default", DName: "b", Act: "nope"}},
+		{{SNS: "default", SName: "a", DNS: "default", DName: "b", Act: "allow", Peer: "p"}, {SNS: "default", SName: "*", DNS: "default", DName: "b", Act: "deny"}},
+	}
+	for _, ws := range badLegacy {
+		gs = append(gs, &group{kind: "malformed-legacy", mode: "legacy", writes: ws, orders: permutations(len(ws)), commute: false, wf: false})
+	}
+	// ---- 5. dedicated groups for the two known weaknesses (see known_findings.json)
+	// 5a. names that differ only in case
+	mixed := [][]write{
+		{{SNS: "default", SName: "web", DNS: "default", DName: "db", Act: "allow"}, {SNS: "default", SName: "api", DNS: "default", DName: "DB", Act: "deny"}},
+		{{SNS: "default", SName: "Web", DNS: "default", DName: "db", Act: "deny"}, {SNS: "default", SName: "*", DNS: "default", DName: "db", Act: "allow"}},
+		{{SNS: "default", SName: "web", DNS: "default", DName: "Db", Act: "allow"}, {SNS: "default", SName: "*", DNS: "default", DName: "*", Act: "deny"}},
+	}
+	for _, ws := range mixed {
+		for _, mode := range []string{"legacy", "upsert"} {
+			gs = append(gs, &group{kind: "mixed-case", mode: mode, writes: ws, orders: permutations(len(ws)), commute: true, wf: true, extraQ: []string{"web", "Web", "db", "DB"}})
+		}
+	}
+	// 5b. a peered and a local source with the same service name in one entry, stored in either order,
+	//     followed by the same upsert of the local one
+	for _, act := range []string{"allow", "deny"} {
+		pe := Src{Peer: "p", Name: "web", Act: "deny"}
+		lo := Src{Name: "web", Act: "allow"}
+		g := &group{kind: "stored-order", mode: "upsert", commute: true, wf: true,
+			writes: []write{{SNS: "default", SName: "web", DNS: "default", DName: "db", Act: act}},
+			orders: [][]int{{0}, {0}},
+			prefix: [][]Op{{{Kind: "entry", Name: "db", Srcs: []Src{pe, lo}}}, {{Kind: "entry", Name: "db", Srcs: []Src{lo, pe}}}}}
+		gs = append(gs, g)
+	}
+	// peered + local twins without any upsert: the match-by-source list
+	gs = append(gs, &group{kind: "peer-twin", mode: "entry", commute: true, wf: true,
+		writes: []write{{SNS: "default", SName: "web", DNS: "default", DName: "db", Act: "deny", Peer: "p"},
+			{SNS: "default", SName: "web", DNS: "default", DName: "db", Act: "allow"},
+			{SNS: "default", SName: "*", DNS: "default", DName: "db", Act: "deny", Peer: "p"}},
+		orders: permutations(3)})
+	return gs
+}
+
+// ------------------------------------------------------------------ tabulations
+
+type Tab struct {
+	Tab   bool          `json:"tab"`
+	Prec  [][]string    `json:"prec"`  // sns, sn, dns, dn, precedence
+	CPrec [][]string    `json:"cprec"` // source name, entry name, precedence
+	U     []Ixn         `json:"u"`
+	Less  [][]int       `json:"less"`
+	Authz []interface{} `json:"authz"` // [is_src, target, ns, peer, [positions]]
+}
+
+func tabulate() *Tab {
+	t := &Tab{Tab: true}
+	vals := []string{"*", "default", "a", "", "**"}
+	for _, sns := range vals {
+		for _, sn := range vals {
+			for _, dns := range vals {
+				for _, dn := range vals {
+					x := &structs.Intention{SourceNS: sns, SourceName: sn, DestinationNS: dns, DestinationName: dn, Precedence: 77}
+					x.UpdatePrecedence()
+					t.Prec = append(t.Prec, []string{sns, sn, dns, dn, fmt.Sprint(x.Precedence)})
+				}
+			}
+		}
+	}
+	cvals := []string{"*", "a", "default", "**", "A"}
+	for _, sn := range cvals {
+		for _, en := range cvals {
+			e := &structs.ServiceIntentionsConfigEntry{Kind: structs.ServiceIntentions, Name: en,
+				Sources: []*structs.SourceIntention{{Name: sn, Action: structs.IntentionActionAllow, Precedence: 77}}}
+			if err := e.Normalize(); err != nil {
+				panic(err)
+			}
+			t.CPrec = append(t.CPrec, []string{sn, en, fmt.Sprint(e.Sources[0].Precedence)})
+		}
+	}
+	// a universe of intentions for Less and IntentionMatch
+	peers := []string{"", "p", "pa"}
+	nss := []string{"default", "*", "ns"}
+	nms := []string{"a", "ab", "*", "B"}
+	k := 0
+	for _, p := range peers {
+		for _, sns := range nss {
+			for _, sn := range nms {
+				for _, dn := range nms {
+					k++
+					if k%3 != 0 && !(p == "" && sns == "default") {
+						continue
+					}
+					dns := nss[(k/2)%3]
+					x := &structs.Intention{SourcePeer: p, SourceNS: sns, SourceName: sn, DestinationNS: dns, DestinationName: dn}
+					x.UpdatePrecedence()
+					if k%7 == 0 {
+						x.Precedence = 5 // precedence ties with different keys, and equal keys with different precedence
+					}
+					t.U = append(t.U, Ixn{Peer: p, SNS: sns, SName: sn, DNS: dns, DName: dn, Act: "allow", Prec: x.Precedence})
+				}
+			}
+		}
+	}
+	gi := func(x Ixn) *structs.Intention {
+		i := toIntention(&x)
+		i.Precedence = x.Prec
+		return i
+	}
+	for _, a := range t.U {
+		row := []int{}
+		for j, b := range t.U {
+			if (structs.IntentionPrecedenceSorter{gi(a), gi(b)}).Less(0, 1) {
+				row = append(row, j)
+			}
+		}
+		t.Less = append(t.Less, row)
+	}
+	for _, isSrc := range []bool{true, false} {
+		mt := structs.IntentionMatchDestination
+		if isSrc {
+			mt = structs.IntentionMatchSource
+		}
+		for _, target := range []string{"a", "ab", "*", "b", "B"} {
+			for _, ns := range []string{"default", "ns", "*"} {
+				for _, peer := range []string{"", "p"} {
+					row := []int{}
+					for j, b := range t.U {
+						if connect.IntentionMatch(target, ns, "", peer, gi(b), mt) {
+							row = append(row, j)
+						}
+						_, ok := connect.AuthorizeIntentionTarget(target, ns, "", peer, gi(b), mt)
+						if ok != connect.IntentionMatch(target, ns, "", peer, gi(b), mt) {
+							panic("AuthorizeIntentionTarget and IntentionMatch disagree")
+						}
+					}
+					t.Authz = append(t.Authz, []interface{}{isSrc, target, ns, peer, row})
+				}
+			}
+		}
+	}
+	return t
+}
+
+// ------------------------------------------------------------------ main
+
+func replay(path string) int {
+	b, err := os.ReadFile(path)
+	if err != nil {
+		fmt.Println(err)
+		return 2
+	}
+	var doc struct {
+		Replay *Replay `json:"replay"`
+	}
+	var r Replay
+	if json.Unmarshal(b, &doc) == nil && doc.Replay != nil {
+		r = *doc.Replay
+	} else if err := json.Unmarshal(b, &r); err != nil {
+		fmt.Println(err)
+		return 2
+	}
+	rc := 0
+	run := func(tag string, ops []Op) *Case {
+		c := &Case{Legacy: r.Legacy, WF: true, Ops: ops, Qs: r.Qs, Peers: r.Peers, Dflt: r.Dflt, APerm: r.APerm}
+		if p := execute(c); p != "" {
+			fmt.Println(tag, "problem:", p)
+		}
+		fmt.Printf("%s writes:\n", tag)
+		for k, o := range c.Ops {
+			ob, _ := json.Marshal(o)
+			fmt.Printf("  %s -> code %d %s\n", ob, c.WRes[k], c.WMsg[k])
+		}
+		fmt.Printf("%s Store.Intentions: %v\n", tag, c.All)
+		for k, q := range c.Qs {
+			fmt.Printf("%s match source %v: %v\n%s match destination %v: %v\n", tag, q, c.msrcFull[k], tag, q, c.mdstFull[k])
+		}
+		fs := oracleCase(c)
+		for _, f := range fs {
+			fmt.Printf("%s ORACLE FAILS: %s: %s\n", tag, f.kind, f.detail)
+			rc = 1
+		}
+		if len(fs) == 0 {
+			fmt.Printf("%s oracle: ok\n", tag)
+		}
+		return c
+	}
+	a := run("A", r.Ops)
+	if len(r.Ops2) > 0 {
+		b := run("B", r.Ops2)
+		if d := sameObs(a, b); d != "" {
+			fmt.Println("ORACLE FAILS: order-dependent:", d)
+			rc = 1
+		}
+	}
+	return rc
 }
 
 func main() {
-	// ---------- legacy
-	s := state.NewStateStore(nil)
-	mk := func(id, sns, sn, dns, dn string, act structs.IntentionAction) *structs.Intention {
-		return &structs.Intention{ID: id, SourceNS: sns, SourceName: sn, DestinationNS: dns, DestinationName: dn, Action: act, SourceType: structs.IntentionSourceConsul}
+	seed := flag.Int64("seed", 1, "PRNG seed")
+	tier := flag.String("tier", "quick", "quick|thorough")
+	out := flag.String("out", "", "output file (JSON lines)")
+	rep := flag.String("replay", "", "replay a case file")
+	coqMax := flag.Int("coqmax", 0, "max cases marked for evaluation in Coq (0 = tier default)")
+	flag.Parse()
+	if *rep != "" {
+		os.Exit(replay(*rep))
 	}
-	id := func(n int) string { return fmt.Sprintf("00000000-0000-0000-0000-%012d", n) }
-	fmt.Println(s.LegacyIntentionSet(1, mk(id(1), "default", "web", "default", "db", "allow")))
-	fmt.Println(s.LegacyIntentionSet(2, mk(id(2), "default", "Web", "default", "db", "deny")))
-	fmt.Println(s.LegacyIntentionSet(3, mk(id(3), "default", "*", "default", "DB", "deny")))
-	fmt.Println(s.LegacyIntentionSet(4, mk(id(4), "*", "*", "*", "*", "deny")))
-	fmt.Println(s.LegacyIntentionSet(5, mk(id(5), "*", "web", "*", "db", "deny")))
-	fmt.Println(s.LegacyIntentionSet(6, mk("", "x", "web", "*", "db", "deny")))
-	for _, n := range []string{"web", "Web", "WEB", "*"} {
-		_, l, err := s.IntentionMatchOne(nil, structs.IntentionMatchEntry{Namespace: "default", Name: n}, structs.IntentionMatchSource, structs.IntentionTargetService)
-		dump("legacy src "+n, structs.Intentions(l))
-		fmt.Println(err)
-		for _, d := range []string{"db", "DB"} {
-			dec, _ := s.IntentionDecision(state.IntentionDecisionOpts{Target: d, Namespace: "default", Intentions: l, MatchType: structs.IntentionMatchDestination, DefaultAllow: true})
-			fmt.Printf("  decision %s->%s %+v\n", n, d, dec)
-		}
-	}
-	for _, n := range []string{"db", "Db"} {
-		_, l, _ := s.IntentionMatch(nil, &structs.IntentionQueryMatch{Type: structs.IntentionMatchDestination, Entries: []structs.IntentionMatchEntry{{Namespace: "default", Name: n}}})
-		dump("legacy dst "+n, l[0])
-	}
-	_, all, _, _ := s.Intentions(nil, nil)
-	dump("legacy list", all)
+	rng := rand.New(rand.NewSource(*seed))
+	groups := genGroups(rng, *tier)
 
-	// ---------- config
-	c := state.NewStateStore(nil)
-	fmt.Println(c.SystemMetadataSet(1, &structs.SystemMetadataEntry{Key: structs.SystemMetadataIntentionFormatKey, Value: structs.SystemMetadataIntentionFormatConfigValue}))
-	ens := func(idx uint64, e *structs.ServiceIntentionsConfigEntry) error {
-		if err := e.Normalize(); err != nil {
-			return fmt.Errorf("normalize: %v", err)
+	var cases []*Case
+	type span struct{ from, to int }
+	spans := make([]span, len(groups))
+	for gi, g := range groups {
+		spans[gi].from = len(cases)
+		for oi, order := range g.orders {
+			ops := buildOps(g, gi, order)
+			if len(g.prefix) > 0 {
+				ops = append(cloneOps(g.prefix[oi]), ops...)
+			}
+			qs, peers := queriesFor(g, ops)
+			k := len(cases)
+			cases = append(cases, &Case{ID: k, Group: gi, GKind: g.kind, Mode: g.mode, Commute: g.commute, WF: g.wf,
+				Legacy: g.mode == "legacy", Ops: ops, Qs: qs, Peers: peers, Dflt: k%2 == 1, APerm: (k/2)%2 == 1})
 		}
-		if err := e.Validate(); err != nil {
-			return fmt.Errorf("validate: %v", err)
-		}
-		return c.EnsureConfigEntry(idx, e)
+		spans[gi].to = len(cases)
 	}
-	perm := []*structs.IntentionPermission{{Action: "allow", HTTP: &structs.IntentionHTTPPermission{PathExact: "/x"}}}
-	fmt.Println("L7 without protocol:", ens(2, &structs.ServiceIntentionsConfigEntry{Kind: structs.ServiceIntentions, Name: "l7", Sources: []*structs.SourceIntention{{Name: "web", Permissions: perm}}}))
-	pd := &structs.ProxyConfigEntry{Kind: structs.ProxyDefaults, Name: structs.ProxyConfigGlobal, Config: map[string]interface{}{"protocol": "http"}}
-	pd.Normalize()
-	fmt.Println(pd.Validate(), c.EnsureConfigEntry(3, pd))
-	fmt.Println("L7 with protocol:", ens(4, &structs.ServiceIntentionsConfigEntry{Kind: structs.ServiceIntentions, Name: "l7", Sources: []*structs.SourceIntention{{Name: "web", Permissions: perm}}}))
 
-	fmt.Println(ens(5, &structs.ServiceIntentionsConfigEntry{Kind: structs.ServiceIntentions, Name: "db", Sources: []*structs.SourceIntention{
-		{Name: "web", Peer: "p", Action: "deny"}, {Name: "web", Action: "allow"}, {Name: "*", Action: "deny"}, {Name: "api", Peer: "p", Action: "deny"}}}))
-	fmt.Println(ens(6, &structs.ServiceIntentionsConfigEntry{Kind: structs.ServiceIntentions, Name: "*", Sources: []*structs.SourceIntention{
-		{Name: "web", Action: "deny"}, {Name: "*", Peer: "p", Action: "allow"}}}))
-	fmt.Println(ens(7, &structs.ServiceIntentionsConfigEntry{Kind: structs.ServiceIntentions, Name: "Up", Sources: []*structs.SourceIntention{
-		{Name: "Web", Action: "deny"}}}))
-	for _, n := range []string{"web", "Web", "api", "*"} {
-		_, l, err := c.IntentionMatchOne(nil, structs.IntentionMatchEntry{Namespace: "default", Name: n}, structs.IntentionMatchSource, structs.IntentionTargetService)
-		dump("config src "+n, structs.Intentions(l))
-		if err != nil {
-			fmt.Println(err)
+	problems := make([]string, len(cases))
+	var wg sync.WaitGroup
+	ch := make(chan int, 64)
+	for w := 0; w < 6; w++ {
+		wg.Add(1)
+		go func() {
+			defer wg.Done()
+			for k := range ch {
+				problems[k] = execute(cases[k])
+			}
+		}()
+	}
+	for k := range cases {
+		ch <- k
+	}
+	close(ch)
+	wg.Wait()
+
+	// oracle: per case, then across the orders of a group
+	addFail := func(c *Case, kind, detail string, shrunk *Replay) {
+		c.Fails = append(c.Fails, Fail{Kind: kind, Detail: detail, Sig: signature(c, kind), Shrunk: shrunk})
+		if c.Oracle != "" {
+			c.Oracle += ","
+		}
+		c.Oracle += kind
+	}
+	for k, c := range cases {
+		if problems[k] != "" {
+			addFail(c, "harness-problem", problems[k], nil)
+			continue
+		}
+		for _, f := range oracleCase(c) {
+			addFail(c, f.kind, f.detail, shrinkSingle(c, f.kind))
 		}
 	}
-	for _, n := range []string{"db", "DB", "up", "Up", "*", "zz"} {
-		_, l, err := c.IntentionMatchOne(nil, structs.IntentionMatchEntry{Namespace: "default", Name: n}, structs.IntentionMatchDestination, structs.IntentionTargetService)
-		dump("config dst "+n, structs.Intentions(l))
-		if err != nil {
-			fmt.Println(err)
+	for gi, g := range groups {
+		if !g.commute {
+			continue
+		}
+		first := cases[spans[gi].from]
+		for k := spans[gi].from + 1; k < spans[gi].to; k++ {
+			c := cases[k]
+			if problems[k] != "" || problems[spans[gi].from] != "" {
+				continue
+			}
+			if d := sameObs(first, c); d != "" {
+				kind := "order-dependent"
+				if len(g.prefix) > 0 {
+					kind = "stored-order-dependent"
+				}
+				addFail(c, kind, d, shrinkPair(first, c))
+			}
 		}
 	}
-	// upsert shadowing
-	up := func(idx uint64, src, dst string, act structs.IntentionAction) error {
-		return c.IntentionMutation(idx, structs.IntentionOpUpsert, &structs.IntentionMutation{
-			Destination: structs.NewServiceName(dst, nil), Source: structs.NewServiceName(src, nil),
-			Value: &structs.SourceIntention{Name: src, Action: act}})
+
+	// which cases are evaluated against the model inside Coq
+	max := *coqMax
+	if max == 0 {
+		max = 2400
+		if *tier == "thorough" {
+			max = 1 << 30
+		}
 	}
-	fmt.Println("upsert web->db deny:", up(10, "web", "db", "deny"))
-	fmt.Println("upsert web->DB deny:", up(11, "web", "DB", "deny"))
-	fmt.Println("upsert api->db allow:", up(12, "api", "db", "allow"))
-	_, l, _ := c.IntentionMatchOne(nil, structs.IntentionMatchEntry{Namespace: "default", Name: "db"}, structs.IntentionMatchDestination, structs.IntentionTargetService)
-	dump("config dst db after", structs.Intentions(l))
-	fmt.Println("delete web->db:", c.IntentionMutation(13, structs.IntentionOpDelete, &structs.IntentionMutation{
-		Destination: structs.NewServiceName("db", nil), Source: structs.NewServiceName("web", nil)}))
-	_, l, _ = c.IntentionMatchOne(nil, structs.IntentionMatchEntry{Namespace: "default", Name: "db"}, structs.IntentionMatchDestination, structs.IntentionTargetService)
-	dump("config dst db after delete", structs.Intentions(l))
-	_, all, _, _ = c.Intentions(nil, nil)
-	dump("config list", all)
+	if len(cases) <= max {
+		for _, c := range cases {
+			c.ToCoq = true
+		}
+	} else {
+		// all special groups, then an even sample of the rest
+		n := 0
+		var rest []*Case
+		for _, c := range cases {
+			if c.GKind != "small-exhaustive" && c.GKind != "random-large" {
+				c.ToCoq = true
+				n++
+			} else {
+				rest = append(rest, c)
+			}
+		}
+		step := float64(len(rest)) / float64(max-n)
+		if step < 1 {
+			step = 1
+		}
+		for f := 0.0; int(f) < len(rest); f += step {
+			rest[int(f)].ToCoq = true
+		}
+	}
+
+	w := bufio.NewWriter(os.Stdout)
+	if *out != "" {
+		f, err := os.Create(*out)
+		if err != nil {
+			fmt.Fprintln(os.Stderr, err)
+			os.Exit(2)
+		}
+		defer f.Close()
+		w = bufio.NewWriter(f)
+	}
+	defer w.Flush()
+	enc := json.NewEncoder(w)
+	if err := enc.Encode(tabulate()); err != nil {
+		panic(err)
+	}
+	for _, c := range cases {
+		if err := enc.Encode(c); err != nil {
+			panic(err)
+		}
+	}
 }
